@@ -173,3 +173,9 @@ def r5(ctx):
     key_discipline(ctx)
     one_write_per_send(ctx)
 
+
+@rule("R-C07-6", min_instances=3, title="the pong is written before anything further is read: the frame reader never asks the transport for more than the current frame still needs (no read-ahead)")
+def r_sib_r_c07_6(ctx):
+    from .c02 import r5 as no_read_ahead
+    no_read_ahead(ctx)
+
